@@ -157,10 +157,7 @@ def compatibleLayout (S : Swapper) (k1 k2 : Nat) : Bool := compatibleLayoutF tru
 
 /-- direct connections over all layouts (:1044-1054) -/
 def connections (S : Swapper) : List (List Nat) :=
-  let n := S.allNames.length
-  (List.range n).map (fun a =>
-    ((List.range n).flatMap (fun n' => (List.range n').filterMap (fun i =>
-      if S.compatibleLayout n' i then (if a = i then some n' else if a = n' then some i else none) else none))))
+  Handler.connectionsOf S.allNames.length (fun hi lo => S.compatibleLayout hi lo)
 
 def routes (S : Swapper) (order : List Nat) : RouteMap × Bool := routeMap S.allNames S.connections order
 
